@@ -255,6 +255,17 @@ class CreateCheck:
                                    "cids": cids, "hardlink": hl,
                                    "seed": seed, "listing": "native",
                                    "cli": scale == "R"})
+        # files stored with holes (data islands starting on 4 KiB pages at
+        # every offset modulo the block) next to the same bytes stored densely
+        for sp in (True, False):
+            for P in ((16384, 65536) if quick else (16384, 65536, 262144)):
+                for sh, vecs in (("S1", [[100000], [463752], [8 * P + 4097]]),
+                                 ("D2n", [[463752, 5], [70000, 200000]])):
+                    gs.append({"kind": "vec", "scale": "R", "B": REAL_B,
+                               "P": P, "shape": sh, "sizes_list": vecs,
+                               "cids": ["holesA", "holesB"][:world.nfiles(sh)],
+                               "sparse": sp, "seed": seed,
+                               "listing": "native", "cli": True})
         # R, the largest piece lengths the validator accepts, tiny files
         # (padding / zero-extension longer than 16 MiB)
         for P in ([1 << 25] if quick else [1 << 20, 1 << 24, 1 << 25]):
@@ -388,7 +399,8 @@ class CreateCheck:
         parent = world.fresh_dir()
         name = w.get("rootname") or world.ROOT_NAME
         path = world.materialize(files, parent, name=name, shape=w["shape"],
-                                 hardlink=w.get("hardlink", False))
+                                 hardlink=w.get("hardlink", False),
+                                 sparse=w.get("sparse", False))
         out = {}
         trans = 0
         tf.reset_process_state()
@@ -633,6 +645,8 @@ class CreateCheck:
                 w["cids"] = g["cids"]
             if g.get("hardlink"):
                 w["hardlink"] = True
+            if g.get("sparse"):
+                w["sparse"] = True
             obs, trans = self.observe(w, seed, cli=g.get("cli", False),
                                       listing=g.get("listing", "native"))
             res.states += 1
